@@ -27,8 +27,8 @@ def main():
             rc = mod.replay(chk, a.replay)
             sys.exit(rc)
         # the thorough tier repeats the whole exploration with further seeds (same regenerated model, same proofs - memoised -,
-        # fresh documents / expressions / histories each round); the exhaustive parts dominate C18 and C02
-        rounds = {"C18": 2, "C02": 3}.get(a.prop, 6) if a.tier == "thorough" else 1
+        # fresh documents / expressions / histories each round); the exhaustive parts dominate C18 (one round) and C02
+        rounds = {"C18": 1, "C02": 3}.get(a.prop, 6) if a.tier == "thorough" else 1
         base = lib.seed()
         os.environ["VERIF_BASE_SEED"] = str(base)
         for r in range(rounds):
